@@ -12,6 +12,7 @@ import BpModel.Model.Cli
 import BpModel.Model.Emit
 import BpModel.Model.Memo
 import BpModel.Model.Lint
+import BpModel.Model.Lexer
 /-!
 # bpdrv — line-protocol driver for the executable model
 
@@ -441,6 +442,14 @@ def handle (op : String) (req : Json) : Except String Json := do
       let v := match a[2]? with | some j => (match j.getInt? with | .ok i => i | .error _ => 0) | none => 0
       pure ((← a[0]!.getStr?), k, v)
     pure (okJson (.arr ((memoRun ops).map fun (i : Int) => (i : Json)).toArray))
+  | "lex.string" =>
+    let t ← req.getObjValAs? String "text"
+    match Lexer.lexString t.toList with
+    | none => pure (Json.mkObj [("none", true)])
+    | some (.ok v, rest) => pure (Json.mkObj [("ok", String.ofList v), ("rest", String.ofList rest)])
+    | some (.error .invalidEscapingChar, _) => pure (Json.mkObj [("exc", "InvalidEscapingChar")])
+    | some (.error .indexError, _) => pure (Json.mkObj [("exc", "IndexError")])
+    | some (.error .outOfFuel, _) => pure (Json.mkObj [("exc", "hang")])
   | _ => .error s!"unknown op {op}"
 
 def handleLine (line : String) : Json :=
